@@ -263,6 +263,15 @@ def run_history(method, n, order):
     return info
 
 
+def fresh_fd_module(fd):
+    """execute the source of finite_difference.py again under another name: its module-level state as at import"""
+    import importlib.util
+    spec = importlib.util.spec_from_file_location('numdifftools._fd_as_imported', fd.__file__)
+    mod = importlib.util.module_from_spec(spec)
+    spec.loader.exec_module(mod)
+    return mod
+
+
 def run_ci():
     m = mods(); fd, core = m['fd'], m['core']
     cnt = 0
@@ -285,6 +294,18 @@ def run_ci():
         if not ok:
             bad.append((method, n, order, r, key, want_key))
     solve.fact('CI:rule()-stores-exactly-(make_exact(r),parity,num_terms)->pinv(_fd_matrix(key))[%d configurations]' % cnt, not bad, note=str(bad[:2]))
+    # base case of the invariant: the content of FD_RULES when the module has just been imported
+    fresh = fresh_fd_module(fd)
+    init_bad = []
+    for key, val in dict(fresh.FD_RULES).items():
+        try:
+            want = fresh.linalg.pinv(fresh.LogRule._fd_matrix(*key))
+            if not (np.shape(val) == np.shape(want) and np.array_equal(np.asarray(val), want)):
+                init_bad.append((key, 'entry differs from pinv(_fd_matrix(key)) by %.3g' % float(np.max(np.abs(np.asarray(val) - want)))))
+        except Exception as e:
+            init_bad.append((key, repr(e)[:80]))
+    solve.fact('CI:content-of-FD_RULES-at-import-satisfies-the-invariant(bit-for-bit)[%d entries]' % len(fresh.FD_RULES), not init_bad,
+               note=str(init_bad[:2]))
     # no other store to FD_RULES anywhere in the package
     stores = {}
     for nm in ('fd', 'core', 'lm', 'ex', 'sg', 'mc', 'fb'):
@@ -412,6 +433,8 @@ def run_group(args):
 
 def replay_case(ob):
     import re
+    if 'content-of-FD_RULES-at-import' in ob['name']:
+        return dict(kind='C09.cache0')
     mm = re.search(r'\[(\w+),n=(\d+),order=(\d+)\]', ob['name'])
     sc = re.search(r'H:(\w+)\[(\w+)\]', ob['name'])
     c = dict(kind='C09.history')
